@@ -53,7 +53,7 @@ def split(rng, k, denom):
 
 
 def gen_mdp(rng):
-    nS, nA = rng.randint(2, 6), rng.randint(1, 4)
+    nS, nA = rng.randint(2, 6), rng.choice([1, 2, 2, 3, 3, 4, 4])
     T = []
     for s in range(nS):
         rows = []
@@ -94,7 +94,7 @@ def gen_cases(rng, ncases):
     while len(cases) < ncases:
         m = gen_mdp(rng)
         r = rng.random()
-        if r < .2:
+        if r < .1:
             # lambda ladder on one MDP, uniform prior: the lambda -> 0 clause
             for lam in ["1/10", "1/100", "1/1000"]:
                 c = dict(m)
@@ -103,7 +103,7 @@ def gen_cases(rng, ncases):
                 cases.append(c)
             continue
         c = dict(m)
-        if r < .4 and len(m["R"]) == m["nS"] and len(m["R"][0]) == m["nA"] and len(m["R"][0][0]) == m["nS"]:
+        if r < .3 and len(m["R"]) == m["nS"] and len(m["R"][0]) == m["nA"] and len(m["R"][0][0]) == m["nS"]:
             c.update({"lam": rng.choice(LAMS), "lam_style": rng.choice(["float", "float", "tensor1"]), "pi0": None,
                       "force_nonzero": True, "via": "planner", "n_iters": 300, "group": "planner"})
             cases.append(c)
@@ -487,7 +487,7 @@ def run(ctx):
         "rule": "row-stochastic tensors with 2-6 states x 1-4 actions, probabilities k/2..k/16 with zero entries and duplicated action rows, "
                 "integer rewards -5..5 in shapes (S,A,S),(S,A,1),(1,1,S),(1,A,1),(S,1,1), gamma in {1/2,9/10}, entropy weight in "
                 "{1e-3,1e-2,1e-1,1/2,1,2,10} as Python float / int / 1-element tensor / per-state tensor, prior None (uniform) or on the open simplex k/16 "
-                "((1,A) or (S,A)), force_nonzero_probabilities both ways; 20% lambda ladders (uniform prior, 1e-1,1e-2,1e-3 on one MDP), 20% through "
+                "((1,A) or (S,A)), force_nonzero_probabilities both ways; about 20% of cases in lambda ladders (uniform prior, 1e-1,1e-2,1e-3 on one MDP), about 15% through "
                 "EntropyRegularizedPolicyIteration.plan_on; one interval-proved goal per number (q, pi: states x actions; v, Z>0: states) of every "
                 "CONVERGED result; distinct = structural hash of the case; non-trivial = converged (all have >= 2 states)",
         "samples": sample,
